@@ -7,6 +7,7 @@ import (
 	"math/big"
 	"reflect"
 	"sort"
+	"strings"
 	"unsafe"
 
 	multiproof "github.com/crate-crypto/go-ipa"
@@ -59,7 +60,7 @@ var c13Kinds = []string{
 	// calls that must fail
 	"transcript-retain", "fail-prove-zero-commitment",
 	"readpoint-mutate", "readscalar-mutate", "prove-mutate-result", "fr-setbigint", "fr-setinterface", "setidentity-mutate",
-	"results-mutate", "fr-exp", "proof-read-reuse", "decode-trust-sequence",
+	"results-mutate", "fr-exp", "proof-read-reuse", "decode-trust-sequence", "commit-short", "prove-twice-keep-first",
 	"fail-prove-len", "fail-prove-zero", "fail-prove-polylen", "fail-verify-len", "fail-verify-shape", "fail-ipa-verify-shape", "fail-batchnorm-zero", "fail-read-short", "fail-decode-noncanonical", "fail-msm-len",
 }
 
@@ -304,7 +305,7 @@ func (a *arena) print() arenaPrint {
 		order = append(order, 0)
 		st.Cs = nil
 	}
-	p.strict = Fingerprint(a) ^ mix(Fingerprint(&order))
+	p.strict = CapFingerprint(a) ^ mix(Fingerprint(&order))
 	for i, st := range a.Stmts {
 		st.Cs = saveCs[i]
 	}
@@ -539,6 +540,32 @@ func doCall(a *arena, c C13Call) (out string, failed bool) {
 		err4 := u.SetBytesUncompressed(ub[:], true)
 		err5 := u.SetBytesUncompressed(ub[:], false)
 		return digest(err1 != nil, err2 != nil, err3 != nil, err4 != nil, err5 != nil), err1 != nil
+	case "commit-short":
+		// a vector shorter than 256 whose spare capacity reaches into the next polynomial
+		k := pick(nPolys, c.A)
+		n := 1 + c.N%255
+		e := cfg.Commit(a.Polys[k][:n])
+		return digest(e.Bytes()), false
+	case "prove-twice-keep-first":
+		st := a.Stmts[pick(len(a.Stmts), c.A)]
+		mk := func(label string) (*multiproof.MultiProof, error) {
+			return multiproof.CreateMultiProof(common.NewTranscript(label), cfg, append([]*banderwagon.Element{}, st.Cs...), append([][]fr.Element{}, st.Fs...), append([]uint8{}, st.Zs...))
+		}
+		p1, err := mk("first")
+		if err != nil {
+			return digest("err"), true
+		}
+		var b1 bytes.Buffer
+		p1.Write(&b1)
+		if _, err := mk("second"); err != nil {
+			return digest("err"), true
+		}
+		var b1again bytes.Buffer
+		p1.Write(&b1again)
+		if !bytes.Equal(b1.Bytes(), b1again.Bytes()) {
+			return "ALIASED-RESULT", false
+		}
+		return digest(b1.Bytes()), false
 	case "fr-exp":
 		var e fr.Element
 		exps := []int{0, 1, 3, 5}
@@ -1023,7 +1050,8 @@ func (c13) Exec(plan interface{}) Result {
 			nr := a.rawValues()
 			if nr != raw {
 				// only the prover and BatchNormalize may change a representation
-				if c.Kind != "prove" && c.Kind != "prove-mutate-result" && c.Kind != "batchnorm" && c.Kind != "fail-batchnorm-zero" && !(len(c.Kind) >= 10 && c.Kind[:4] == "fail" && c.Kind[5:10] == "prove") {
+				// every call kind that goes through CreateMultiProof or BatchNormalize may re-normalise
+				if !strings.Contains(c.Kind, "prove") && !strings.Contains(c.Kind, "batchnorm") {
 					return false, fail("representation-changed", "call %d (%s) %s changed the representation of a shared group element although it is not a normalising call", i, c.Kind, after)
 				}
 				raw = nr
